@@ -1901,7 +1901,7 @@ impl<'a, 'ast> Visit<'ast> for FactScan<'a> {
             }
             "push" | "enqueue" if m == "enqueue" || {
                 let r: String = self.src.slice(self.src.range(mc.receiver.span())).split_whitespace().collect();
-                r == "shared" || r.ends_with(".shared")
+                r == "shared" || r.ends_with(".shared") || (r == "self" && self.fname().starts_with("WakerList::"))
             } => {
                 // a slot is put on the ready queue without its waker being invoked
                 let recv: String = self.src.slice(self.src.range(mc.receiver.span())).split_whitespace().collect();
